@@ -116,6 +116,32 @@ def history(k):
     sx.reach("history")
 
 
+def history_reset(k1, k2):
+    """k1 frames, consumer.reset(), k2 frames: log and active mirror the history since the reset"""
+    cons = emcy().EmcyConsumer()
+    for i in range(k1):
+        cons.on_emcy(0x81, _frame("a%d" % i), 1)
+    cons.reset()
+    sx.prove(len(cons.log) == 0 and len(cons.active) == 0, "reset empties both lists", "C16/reset/empty")
+    frames = []
+    for i in range(k2):
+        f = _frame("f%d" % i)
+        ts = sx.fresh_int("ts%d" % i, 0, 1 << 40)
+        frames.append((f, ts))
+        cons.on_emcy(0x81, f, ts)
+    sx.prove(len(cons.log) == k2, "one log entry per frame after reset()", "C16/reset/log-length")
+    resets = [(_fields(f)[0] & 0xFF00) == 0 for f, ts in frames]
+    na = len(cons.active)
+    sx.observe("active", na)
+    sx.prove(na <= k2 and sx.all_([sx.not_(resets[i]) for i in range(max(k2 - na, 0), k2)]),
+             "active entries are non-reset frames", "C16/reset/active-nonreset")
+    if 0 <= k2 - na - 1 < k2:
+        sx.prove(resets[k2 - na - 1], "entry before the active ones is a reset frame", "C16/reset/active-start")
+    sx.prove(na <= k2 and all(cons.active[j] is cons.log[k2 - na + j] for j in range(min(na, k2))),
+             "active entries are the log's tail", "C16/reset/active-tail")
+    sx.reach("history-reset")
+
+
 def producer(n):
     """A message sent by the producer is decoded by the consumer into the same code, register and
     data (zero-padded to five bytes)."""
@@ -216,6 +242,9 @@ def jobs(tier):
             out.append(dict(func="step", params=dict(nlog=nlog, nact=nact)))
     for k in range(0, (3 if tier == "quick" else 5) + 1):
         out.append(dict(func="history", params=dict(k=k), weight=k))
+    for k1 in (0, 1, 2):
+        for k2 in (1, 2):
+            out.append(dict(func="history_reset", params=dict(k1=k1, k2=k2)))
     for n in range(0, 6):
         out.append(dict(func="producer", params=dict(n=n)))
     out.append(dict(func="description", params={}))
@@ -241,7 +270,7 @@ META = dict(
                     "log entry)", "OS-thread interleavings", "data longer than 5 bytes"],
     assumptions=["fake clock: a wake-up without delivery advances time by the time-out"],
     stubs=["struct", "threading.Condition", "time", "bytes"],
-    required_reach=["step", "reset-cleared", "history", "producer", "producer-reset", "desc", "wait-timeout",
+    required_reach=["step", "reset-cleared", "history", "history-reset", "producer", "producer-reset", "desc", "wait-timeout",
                     "wait-hit"],
     limits=dict(quick=dict(), thorough=dict()),
 )
